@@ -22,6 +22,16 @@ theorem terminal_priorities :
     (Gen.terminalRows.find? (fun r => r.1 == "MEM_STORE")).map (fun r => r.2.2.2) = some 10 ∧
     (Gen.terminalRows.find? (fun r => r.1 == "JUMP")).map (fun r => r.2.2.2) = some 10 := by decide
 
+/-- `++` / `--` outrank the one-character operators they are made of: with Lark's dynamic lexer nothing else makes
+    `a++ - b` read as `(a++) - b` rather than `a + (+(-b))` (C's maximal munch; repaired in /repo, the witness texts are
+    replayed by the check on every run). -/
+theorem incdec_outrank_single_char_operators :
+    (Gen.terminalRows.find? (fun r => r.1 == "INC_OP")).map (fun r => r.2.2.2) = some 2 ∧
+    (Gen.terminalRows.find? (fun r => r.1 == "DEC_OP")).map (fun r => r.2.2.2) = some 2 ∧
+    (Gen.terminalRows.find? (fun r => r.1 == "ADD_OP")).map (fun r => r.2.2.2) = some 0 ∧
+    (Gen.terminalRows.find? (fun r => r.1 == "SUB_OP")).map (fun r => r.2.2.2) = some 0 ∧
+    (Gen.terminalRows.find? (fun r => r.1 == "UNARY_OP")).map (fun r => r.2.2.2) = some 0 := by decide
+
 /-- The statement grammar has both `if` forms with a plain `stmt` body: `if (a) if (b) s; else t` has two
     derivations (dangling else), so its outcome rests on Lark's ambiguity resolution. -/
 theorem dangling_else_two_alternatives :
